@@ -186,8 +186,30 @@ def calls(C):
     add("find_one(FS)", lambda: FindInAll().find_one(FS), data=True)
     add("exists(X)", lambda: Sid(C["X"]).exists(), data=True)
     add("children(task)", lambda: Sid("/".join(LEAF.split("/")[:C["ver_i"]])).children(), data=True)
+    # state level (constants under an existing version): same string through every Finder
+    XV = "/".join(C["X"].split("/")[: C["ver_i"] + 1])
+    ST = XV + "/*"
+    EV = "/".join(LEAF.split("/")[: C["ver_i"] + 1]) + "/*"
+    for c in names:
+        add(f"find_paths({c},X-version/*)", lambda c=c: list(FindInPaths(c).find(ST)), data=True)
+        add(f"find_paths({c},version/*)", lambda c=c: list(FindInPaths(c).find(EV)), data=True)
+    add("find_all(X-version/*)", lambda: list(FindInAll().find(ST)), data=True)
+    add("find_all(version/*)", lambda: list(FindInAll().find(EV)), data=True)
+    add("find_list(version/*)", lambda: list(FindInList(LST + [EV[:-1] + "w"]).find(EV)))
+    add("exists(X-state)", lambda: Sid(XV + "/" + C["X"].split("/")[C["ver_i"] + 1]).exists(), data=True)
     add("create(X)", lambda: WriteToPaths(c1).create(C["X"]), data=True)
     add("create(Y)", lambda: WriteToPaths(c1).create(C["Y"]), data=True)
+
+    def remove(which):
+        # data may also disappear (spil has no delete, the file system does): the version folder of X / Y is removed
+        import shutil
+        p = tree.entity_path(ref, prs[c1], "/".join(C[which].split("/")[: C["ver_i"] + 1]))
+        existed = bool(p) and os.path.isdir(p[0])
+        if existed:
+            shutil.rmtree(p[0])
+        return existed
+    add("remove(X)", lambda: remove("X"), data=True)
+    add("remove(Y)", lambda: remove("Y"), data=True)
     return out
 
 
@@ -252,8 +274,8 @@ def fresh_table(C, table, first, states):
     # group by state: the tree must be in that state while the launches of that state run
     for st in states:
         set_data_state(C, st)
-        batch = [j for j in jobs if j[0] == st and not j[1].startswith("create(")]
-        mutators = [j for j in jobs if j[0] == st and j[1].startswith("create(")]
+        batch = [j for j in jobs if j[0] == st and not j[1].startswith(("create(", "remove("))]
+        mutators = [j for j in jobs if j[0] == st and j[1].startswith(("create(", "remove("))]
         procs = []
         for j in batch + mutators:
             if j in mutators:  # a create event changes the tree: alone, on a freshly set tree
@@ -268,6 +290,39 @@ def fresh_table(C, table, first, states):
         while procs:
             _reap(procs, out)
     return out
+
+
+LAUNCHED = [0]     # interpreter launches made by this shard (0 when it took the table of another shard of its dimension)
+
+
+def shared_fresh_table(C, table, first, states, sh):
+    """Shards of the same dimension value (hash seed, import order, alphabet) share one fresh table: the first one to
+    arrive computes it (one interpreter launch per call and data state), the others wait for its file."""
+    import time
+    shared = os.path.dirname(os.environ["VERIF_WORKDIR"])
+    tag = "fresh-%s-%s-%s-%d" % (sh["hashseed"], first, sh.get("space", "full"), len(table))
+    path, lock = os.path.join(shared, tag + ".json"), os.path.join(shared, tag + ".lock")
+    try:
+        fd = os.open(lock, os.O_CREAT | os.O_EXCL | os.O_WRONLY)
+        os.close(fd)
+        mine = True
+    except FileExistsError:
+        mine = False
+    if mine:
+        fresh = fresh_table(C, table, first, states)
+        tmp = path + ".tmp"
+        with open(tmp, "w") as f:
+            json.dump([[k[0], k[1], v] for k, v in fresh.items()], f)
+        os.replace(tmp, path)
+        LAUNCHED[0] = len(fresh)
+        return fresh
+    t0 = time.time()
+    while not os.path.exists(path):
+        if time.time() - t0 > 900:
+            raise RuntimeError("timed out waiting for the shared fresh table " + tag)
+        time.sleep(0.2)
+    with open(path) as f:
+        return {(a, b): v for a, b, v in json.load(f)}
 
 
 def _reap(procs, out):
@@ -297,6 +352,10 @@ def data_state_after(hist):
             st += "X"
         if n == "create(Y)" and "Y" not in st:
             st += "Y"
+        if n == "remove(X)":
+            st = st.replace("X", "")
+        if n == "remove(Y)":
+            st = st.replace("Y", "")
     return "".join(sorted(st))
 
 
@@ -320,6 +379,8 @@ def run_history(C, table, hist, capacity, fresh, first):
             if n.startswith("create(") and st_before == st:
                 # creating what an earlier call created: SpilException is the documented answer
                 exp = ["EXC", "SpilException"]
+            if n.startswith("remove("):
+                exp = (st_before != st)      # True iff there was something to remove
             if n.startswith("find_one(") and st_before and isinstance(r, list) and r[:1] == ["Sid"]:
                 # which element comes first after a data change is the directory's creation order: any found Sid is right
                 allkey = (st_before, n.replace("find_one(", "find_all("))
@@ -350,8 +411,16 @@ def plan(tier, seed):
     shards = []
     for hs in seeds:
         for first in ("local", "server"):
-            caps = ([None, 1] if first == "local" else [None]) if tier == "quick" else [None, 1, 2]
-            shards.append({"hashseed": hs, "first": first, "depth": 2, "part": [0, 1], "capacities": caps})
+            if tier == "quick":
+                if (hs, first) == (seeds[0], "local"):
+                    # the full alphabet, both capacities, in three parts
+                    for i in range(8):
+                        shards.append({"hashseed": hs, "first": first, "depth": 2, "part": [i, 8], "capacities": [None, 1], "space": "full", "interleaved": True})
+                else:
+                    # other hash seeds / import order: pairs over the core alphabet (one call per group of equivalent forms)
+                    shards.append({"hashseed": hs, "first": first, "depth": 2, "part": [0, 1], "capacities": [None], "space": "core"})
+            else:
+                shards.append({"hashseed": hs, "first": first, "depth": 2, "part": [0, 1], "capacities": [None, 1, 2], "space": "full", "interleaved": (hs, first) == (seeds[0], "local")})
     if tier == "thorough":
         for hs, first in ((0, "local"), (1, "server")):
             for i in range(7):
@@ -367,13 +436,23 @@ def run_shard(sh):
     names = list(table)
     rec = Recorder(0, 1, sh["seed"])
     states = ["", "X", "Y", "XY"]
-    fresh = fresh_table(C, table, first, states)
+    if sh.get("space") == "core":
+        # other hash seeds / import order: one call per group of equivalent forms, no data-changing events
+        seen_g, core = set(), {}
+        for n, v in table.items():
+            if n.startswith(("create(", "remove(")):
+                continue
+            if v[2] is None or v[2] not in seen_g:
+                core[n] = v
+                seen_g.add(v[2])
+        table, names, states = core, list(core), [""]
+    fresh = shared_fresh_table(C, table, first, states, sh)
     base_trees(C)
     from mc import env
     # conformance: reset == fresh
     nconf = 0
     for n in names:
-        if n.startswith("create("):
+        if n.startswith(("create(", "remove(")):
             continue
         v = run_history(C, table, [n], None, fresh, first)
         nconf += 1
@@ -397,7 +476,7 @@ def run_shard(sh):
     depth = sh["depth"]
     pi, pn = sh["part"]
     space = names
-    if depth == 3:
+    if depth == 3 or sh.get("space") == "core":
         # triples over the core alphabet: one representative per group of equivalent call forms
         seen_g, space = set(), []
         for n in names:
@@ -405,7 +484,13 @@ def run_shard(sh):
             if g is None or g not in seen_g:
                 space.append(n)
                 seen_g.add(g)
-    for hi, hist in enumerate(itertools.product(space, repeat=depth)):
+    histories = itertools.product(space, repeat=depth)
+    if sh.get("interleaved"):
+        # data changing between calls: m1, q, m2, q' for all mutators (create / remove) and all data-dependent calls
+        muts = [n for n in names if n.startswith(("create(", "remove("))]
+        dcalls = [n for n in names if table[n][1] and n not in muts and "partial" not in n]
+        histories = itertools.chain(histories, ([m1, q1, m2, q2] for m1 in muts for q1 in dcalls for m2 in muts for q2 in dcalls))
+    for hi, hist in enumerate(histories):
         if hi % pn != pi:
             continue
         if depth == 3 and (hist[0] == hist[1] == hist[2]):
@@ -413,11 +498,13 @@ def run_shard(sh):
         for cap in sh["capacities"]:
             v = run_history(C, table, list(hist), cap, fresh, first)
             seen_states.add(cache_state_hash())
-            rec.transitions += depth
+            rec.transitions += len(hist)
             rec.traces += 1
-            rec.case("history-len-%d" % depth, True, sample={"hist": list(hist), "capacity": cap})
+            rec.case("history-len-%d" % len(hist), True, sample={"hist": list(hist), "capacity": cap})
             for x in v:
                 rec.violation(x["signature"], "history", {"hist": list(hist), "capacity": cap, "first": first}, x["observed"], x["expected"])
+            if len(hist) == 4:
+                break     # the interleaved family runs at the default capacity only
     # capacity run: more distinct arguments than the caches hold, then every call again
     if pi == 0:
         from spil import Sid
@@ -427,7 +514,7 @@ def run_shard(sh):
             env.set_cache_capacity(cap)
             base_trees(C)
             for n in names:
-                if n.startswith("create("):
+                if n.startswith(("create(", "remove(")):
                     continue
                 # every call is asked right after the overflow, alone (the replay does exactly this)
                 env.reset()
@@ -443,7 +530,7 @@ def run_shard(sh):
             env.set_cache_capacity(None)
     rec.states = len(seen_states)
     rec.extra = {"hashseed": sh["hashseed"], "first": first, "depth": depth, "alphabet": len(names), "reset_eq_fresh_checked": nconf,
-                 "fresh_launches": len(fresh), "fresh_digest": {n: zlib.crc32(json.dumps(v).encode()) for (st, n), v in fresh.items() if st == ""},
+                 "fresh_launches": LAUNCHED[0], "fresh_digest": {n: zlib.crc32(json.dumps(v).encode()) for (st, n), v in fresh.items() if st == ""},
                  "fresh_values": {n: v for (st, n), v in fresh.items() if st == ""}}
     res = rec.result()
     for sig, lst in res["violations"].items():
